@@ -485,6 +485,7 @@ func c8Eval(exp string, limit time.Duration) c8Obs {
 	c8par = false
 	c8mu.Unlock()
 	t0 := time.Now()
+	g0 := runtime.NumGoroutine()
 	go func() {
 		c8mu.Lock()
 		c8gid = c08CurGid()
@@ -535,6 +536,11 @@ func c8Eval(exp string, limit time.Duration) c8Obs {
 		o.Log = append([]c8Event{}, c8log...)
 		o.Parallel = c8par
 		c8mu.Unlock()
+		if runtime.NumGoroutine() > g0+1 {
+			// the library started goroutines during this evaluation (a stage switched to parallel mode at the very
+			// element the result was decided by: its workers have not ticked yet, the feeder has read ahead)
+			o.Parallel = true
+		}
 		o.Micros = time.Since(t0).Microseconds()
 		return o
 	case <-time.After(limit):
